@@ -118,6 +118,16 @@ fn from_js_str_radix(src: JsStr<'_>, radix: u8) -> Option<f64> {
         if digit < radix { Some(digit) } else { None }
     }
 
+    // Decimal digit strings that may not fit an integer type are converted by the correctly rounding
+    // decimal parser: accumulating in an `f64` rounds at every step.
+    if radix == 10 && !can_not_overflow(radix, src.len()) {
+        let digits = src.iter().map(|x| u8::try_from(x).ok()).collect::<Option<Vec<u8>>>()?;
+        if !digits.iter().all(u8::is_ascii_digit) {
+            return None;
+        }
+        return fast_float2::parse::<f64, _>(&digits).ok();
+    }
+
     let src = src
         .iter()
         .map(|x| u8::try_from(x).expect("should be ascii string"));
